@@ -14,6 +14,12 @@ MCReqsMid   == [ae : {"yes", "no", "refused"}, ct : {"match", "nomatch"}, enc : 
 MCReqsInfo  == [ae : {"yes", "no", "refused"}, ct : {"match", "nomatch"}, enc : {"", "br"},
                 cl : {FALSE, TRUE}, acc : {"other"}, method : {"GET", "HEAD"}, late : {FALSE, TRUE}]
 MCReqsInfoPair == [ae : {"yes", "no"}, ct : {"match"}, enc : {""}, cl : {TRUE}, acc : {"other"}, method : {"GET"}, late : {FALSE, TRUE}]
+\* Accept-Encoding classes incl. wildcard / several codings / q-values in any order
+MCReqsAE    == [ae : {"yes", "no", "refused", "refusedwild", "wild"}, ct : {"match", "nomatch"}, enc : {""},
+                cl : {FALSE, TRUE}, acc : {"other"}, method : {"GET"}, late : {FALSE}]
+\* streamed responses (Flush between chunks / before the first one)
+MCReqsFlush == [ae : {"yes", "no", "refused"}, ct : {"match", "nomatch"}, enc : {"", "br"},
+                cl : {FALSE, TRUE}, acc : {"other", "sse"}, method : {"GET", "HEAD"}, late : {FALSE}]
 MCReqsPair  == [ae : {"yes", "refused"}, ct : {"match", "nomatch"}, enc : {"", "br"}, cl : {TRUE}, acc : {"other"}, method : {"GET"}, late : {FALSE}]
 MCReqsSmall == [ae : {"yes", "no"}, ct : {"match"}, enc : {""}, cl : {TRUE}, acc : {"other"}, method : {"GET"}, late : {FALSE}]
 MCOne == {1}
@@ -23,6 +29,8 @@ MCCodesFull  == {404, 204, 304}
 MCCodesSmall == {404}
 MCCodesInfo  == {103, 102, 404, 204}     \* informational codes before (and after) a final one
 MCCodesInfoSmall == {103, 404}
+MCCodesFlush == {404, 204}
+MCChunksTwo == {"a", "b"}
 MCChunksFull  == {"a", "b", "e"}        \* "e" is concretised as the empty chunk
 MCChunksSmall == {"a"}
 
@@ -30,11 +38,13 @@ HandlerJson(h) ==
     LET st == hs[h] IN
     [started |-> st.pc # "idle", req |-> st.req, ops |-> st.ops, status |-> ExpStatus(h),
      body_allowed |-> BodyAllowed(ExpStatus(h), st.req.method),
+     \* status and "may have a body" under both readings of Flush (got through / no-op)
+     alts |-> {[flush |-> hn, status |-> StatusUnder(st.ops, hn), body_allowed |-> BodyAllowed(StatusUnder(st.ops, hn), st.req.method)] : hn \in BOOLEAN},
      \* a response that cannot have a body (HEAD, 204, 304) has nothing to compress: for it only
      \* "never labelled gzip unless gzip is permitted" and the status are asserted
      modes |-> {[mode |-> m, ce |-> ExpCE(st.req, m), cl |-> ExpCL(st.req, m)] :
                   m \in AllowedModes(st.req, NFinal(st.ops))
-                        \cup (IF BodyAllowed(ExpStatus(h), st.req.method) THEN {} ELSE {"plain"})}]
+                        \cup (IF \A hn \in BOOLEAN : BodyAllowed(StatusUnder(st.ops, hn), st.req.method) THEN {} ELSE {"plain"})}]
 BehaviourJson == [hist |-> hist, handlers |-> [h \in Handlers |-> HandlerJson(h)]]
 
 View == <<hs, pool, made, wbuf, wtarget>>
@@ -44,6 +54,7 @@ GenNext == \E h \in Handlers :
              \/ \E q \in Reqs : Begin(h, q)
              \/ (\E c \in Codes : WriteHeader(h, c)) /\ PrintT(ToJson(BehaviourJson'))
              \/ (\E k \in Chunks : Write(h, k)) /\ PrintT(ToJson(BehaviourJson'))
+             \/ (WithFlush /\ FlushOp(h)) /\ PrintT(ToJson(BehaviourJson'))
              \/ FinishFlush(h) /\ PrintT(ToJson(BehaviourJson'))
              \/ FinishPut(h)
 GenSpec == Init /\ [][GenNext]_vars
